@@ -438,6 +438,9 @@ func c12(r *h.Result, rng *h.Rng, tier string, replay string) error {
 	if os.Getenv("C12_ONLY") == "status-all" { // development aid: only the controller status stream
 		return c12Stages(r, rng.Fork(), tier)
 	}
+	if os.Getenv("C12_ONLY") == "cold" { // development aid: only the concurrent-cold stream (c12cold.go)
+		return c12Cold(r, rng.Fork(), tier)
+	}
 	// known witnesses first (the corpus of this property), then the tier's quota
 	var cases []*c12Case
 	for _, c := range c12Corpus() {
@@ -506,6 +509,13 @@ func c12(r *h.Result, rng *h.Rng, tier string, replay string) error {
 	// model/implementation correspondence for the bookkeeping (FixPeriodPlanner, aggregator, limit, parameters)
 	if err := c12Stages(r, rng.Fork(), tier); err != nil {
 		return err
+	}
+	// concurrent requests against a cold schema-version cache, the leader's lookup failing (c12cold.go); forked after
+	// the older streams so that their cases are unchanged
+	if os.Getenv("C12_ONLY") == "" {
+		if err := c12Cold(r, rng.Fork(), tier); err != nil {
+			return err
+		}
 	}
 	r.Notes = append(r.Notes, "C12 is PARTIAL: the theorems cover parameter totality, fault-freedom of the detached goroutines and termination of the channel protocol in the model; scheduler, memory, context propagation inside database/sql and Prometheus' engine are only explored (child processes), not proved.")
 	return nil
